@@ -34,6 +34,33 @@ ParseText(f) ==
   [hash |-> Reverse8(f[1].v), index |-> FromDec(f[2].v, 2), script |-> f[3].v, amount |-> FromDec(f[4].v, 4),
    bia |-> FromDec(f[5].v, 4), spent |-> ~IsZero(FromDec(f[6].v, 1)), bis |-> FromDec(f[7].v, 4)]
 
+\* The same text as characters (ASCII codes), and a parser of characters: split at the separator, read
+\* hexadecimal / decimal fields.  Used on short scripts (a character per element).
+SepChar == 47                                            \* "/"
+HexChar(n) == IF n < 10 THEN 48 + n ELSE 87 + n           \* 0-9 a-f (lower case)
+HexChars(b) == FoldLeft(LAMBDA acc, x : acc \o <<HexChar(x \div 16), HexChar(x % 16)>>, <<>>, Expand(b))
+DecChars(ds) == [i \in 1..Len(ds) |-> 48 + ds[i]]
+FieldChars(f) == IF f.t = "hex" THEN HexChars(f.v) ELSE DecChars(f.v)
+TextChars(s) == LET f == TextFields(s) IN
+  FoldLeft(LAMBDA acc, i : acc \o (IF i = 1 THEN <<>> ELSE <<SepChar>>) \o FieldChars(f[i]), <<>>, [i \in 1..Len(f) |-> i])
+\* split at the separator: a sequence of character sequences
+SplitFields(cs) == FoldLeft(LAMBDA acc, c : IF c = SepChar THEN Append(acc, <<>>)
+                                           ELSE [acc EXCEPT ![Len(acc)] = Append(@, c)], << <<>> >>, cs)
+HexVal(c) == IF c >= 48 /\ c <= 57 THEN c - 48 ELSE IF c >= 97 /\ c <= 102 THEN c - 87 ELSE IF c >= 65 /\ c <= 70 THEN c - 55 ELSE 0 - 1
+IsHexField(cs) == Len(cs) % 2 = 0 /\ \A i \in 1..Len(cs) : HexVal(cs[i]) >= 0
+IsDecField(cs) == Len(cs) >= 1 /\ \A i \in 1..Len(cs) : cs[i] >= 48 /\ cs[i] <= 57
+UnHex(cs) == Lit([i \in 1..(Len(cs) \div 2) |-> 16 * HexVal(cs[2*i - 1]) + HexVal(cs[2*i])])
+UnDec(cs) == [i \in 1..Len(cs) |-> cs[i] - 48]
+\* the text of a spendable has the seven fields (the shorter forms the tools accept are not modelled)
+ParseTextChars(cs) ==
+  LET f == SplitFields(cs) IN
+  IF Len(f) # 7 \/ ~IsHexField(f[1]) \/ Len(f[1]) # 64 \/ ~IsHexField(f[3])
+     \/ \E i \in {2, 4, 5, 6, 7} : ~IsDecField(f[i])
+  THEN [ok |-> FALSE]
+  ELSE [ok |-> TRUE,
+        s |-> ParseText(<<Hex(UnHex(f[1])), [t |-> "dec", v |-> UnDec(f[2])], Hex(UnHex(f[3])), [t |-> "dec", v |-> UnDec(f[4])],
+                          [t |-> "dec", v |-> UnDec(f[5])], [t |-> "dec", v |-> UnDec(f[6])], [t |-> "dec", v |-> UnDec(f[7])]>>)]
+
 \* ---------------------------------------------------------------- dictionary
 IntF(n) == [t |-> "int", v |-> n]
 DictForm(s) == [coin_value |-> IntF(s.amount), script_hex |-> Hex(s.script), tx_hash_hex |-> Hex(Reverse8(s.hash)),
